@@ -56,10 +56,11 @@ def ws_target(B, case):
     return B.models[0] if case["ws_target"] == "model0" else B.models[-1]
 
 
-def run_full(case, tmp):
-    """the uninterrupted run with both library callbacks attached"""
+def run_full(case, tmp, B=None, lib_cbs=None, trainer_kw=None, tag=""):
+    """one uninterrupted fit with both library callbacks attached.  `lib_cbs` = callback OBJECTS of an earlier fit
+    that are used again (None: new ones), `B` = objects of an earlier fit that are trained further"""
     import pytorch_lightning as pl
-    B = build(case)
+    B = B or build(case)
     tp, torch = B.tp, B.torch
     target = ws_target(B, case)
     obs = dict(written=[], states={}, start=None, end=None)
@@ -75,7 +76,7 @@ def run_full(case, tmp):
                 if h != self.last:
                     self.last = h
                     k = trainer.global_step
-                    shutil.copy(ck, os.path.join(tmp, f"state_{k}.ckpt"))
+                    shutil.copy(ck, os.path.join(tmp, f"state_{tag}{k}.ckpt"))
                     obs["written"].append((batch_idx, k))
 
     class Watch(pl.Callback):
@@ -88,17 +89,34 @@ def run_full(case, tmp):
         def on_train_end(self, trainer, pl_module):
             obs["end"] = state_clone(target.state_dict())
 
-    cbs = [Watch(),
-           tp.utils.TrainerStateCheckpoint(tmp, "state", check_interval=case["ck_interval"]),
-           Keep(),
-           tp.utils.WeightSaveCallback(target, tmp, "w", check_interval=case["ws_interval"],
-                                       save_initial_model=case["ws_init"], save_final_model=case["ws_final"])]
-    B, rec = c07.run_impl(case, B=B, extra_callbacks=cbs)
+    if lib_cbs is None:
+        lib_cbs = (tp.utils.TrainerStateCheckpoint(tmp, "state", check_interval=case["ck_interval"],
+                                                   **({"weights_only": True} if case.get("ck_weights_only") else {})),
+                   tp.utils.WeightSaveCallback(target, tmp, "w", check_interval=case["ws_interval"],
+                                               save_initial_model=case["ws_init"], save_final_model=case["ws_final"]))
+    obs["lib_cbs"] = lib_cbs
+    cbs = [Watch(), lib_cbs[0], Keep(), lib_cbs[1]]
+    B, rec = c07.run_impl(case, B=B, extra_callbacks=cbs, trainer_kw=trainer_kw)
     return B, rec, obs
 
 
-def run_resumed(case, path):
-    return c07.run_impl(case, ckpt_path=path)
+def run_resumed(case, path, B=None, trainer_kw=None):
+    return c07.run_impl(case, B=B, ckpt_path=path, trainer_kw=trainer_kw)
+
+
+def convert(B, mode):
+    """replace the parameter tensors of freshly built / already trained objects the way the case says
+    (the trainer option precision='64-true' does it inside fit)"""
+    if mode == "solver.double":
+        B.solver.double()
+    elif mode == "models.double":
+        for m in B.models:
+            m.double()
+    return B
+
+
+def file_hash(path):
+    return hashlib.sha1(open(path, "rb").read()).hexdigest() if os.path.exists(path) else None
 
 
 def gen_cases(ctx):
@@ -107,7 +125,8 @@ def gen_cases(ctx):
 
     def dress(case):
         case["ck_interval"] = rng.choice([1, 1, 2, 3, 4])
-        case["ws_interval"] = rng.choice([-1, 1, 1, 2, 3])
+        case["ws_interval"] = rng.choice([-1, 0, 1, 1, 2, 3])
+        case["ck_weights_only"] = rng.random() < 0.12     # weights-only checkpoints: loaded, not resumed
         case["ws_init"] = rng.random() < 0.8
         case["ws_final"] = rng.random() < 0.8
         case["ws_target"] = rng.choice(["solver", "model0", "model_last"])
@@ -120,6 +139,8 @@ def gen_cases(ctx):
                             train=[dict(kind="probe", weight="1", model=0, c=["1"])], val=[], N=2, sanity=False, val_every=0,
                             opt=dict(kind="sgd", lr="1/4", momentum="0", dampening="0", wd="0", step_size=0, gamma="1", freq=1))))
     cases[-1].update(ck_interval=1, N=2)
+    for _ in range(ctx.scale(6, 60)):
+        cases.append(dress(gen_two_stage(rng)))
     for _ in range(ctx.scale(30, 300)):
         cases.append(dress(c07.tame(c07.gen_case_rat(rng))))
     for _ in range(ctx.scale(12, 120)):
@@ -127,6 +148,75 @@ def gen_cases(ctx):
     for _ in range(ctx.scale(16, 160)):
         cases.append(dress(c07.gen_case_torch(rng)))
     return cases
+
+
+def gen_two_stage(rng):
+    """stage 1 in single precision; then the parameter tensors are REPLACED (solver.double(), model.double(),
+    Trainer(precision='64-true')) and the same objects are trained on with the SAME callback objects"""
+    while True:
+        case = c07.gen_case_rat(rng, Nmax=5)
+        if all(call_period(c) == 1 for c in case["train"]) and not any(m["kind"] == "seq" for m in case["models"]):
+            break
+    case["channel"] = "torch"        # built in float32
+    case["N"] = max(case["N"], 2)
+    o2 = dict(case["opt"], lr=rng.choice(["1/16", "1/64", "1/128"]))
+    case["stage2"] = dict(N=rng.randint(2, 5), opt=o2, convert=rng.choice(["solver.double", "models.double", "precision64"]),
+                          reuse_solver=rng.random() < 0.5)
+    return case
+
+
+def run_two_stage(rep, case, tmp):
+    tp = common.use_repo()
+    st2 = case["stage2"]
+    rep.count("two-stage"); rep.count("two-stage:convert=" + st2["convert"])
+    rep.count("two-stage:" + ("same Solver object" if st2["reuse_solver"] else "new Solver, same conditions"))
+    # ---- stage 1
+    B, rec1, obs1 = run_full(case, tmp, tag="s1_")
+    if "error" in rec1:
+        rep.case(dict(case=case, stage=1), False)
+        rep.fail(f"stage 1 of a two-stage training raised {rec1['error']}", case)
+        return
+    judge_files(rep, case, B, rec1, obs1, tmp, [], [], label="two-stage training, fit 1: ", full_case=case)
+    # ---- parameter replacement, stage 2 with the same condition / model / callback objects
+    kw = dict(precision="64-true") if st2["convert"] == "precision64" else None
+    convert(B, st2["convert"])
+    sc2 = dict(case, N=st2["N"], opt=st2["opt"], sanity=False, val_every=0)
+    cls, args, lr, sched = c07.opt_values(tp, B.torch, st2["opt"])
+    if st2["reuse_solver"]:
+        B.solver.optimizer_setting.lr = lr
+    else:
+        B.solver = tp.solver.Solver(B.train, B.val, optimizer_setting=tp.solver.OptimizerSetting(cls, lr, optimizer_args=dict(args), **sched))
+    min_before = file_hash(os.path.join(tmp, "w_min_loss.pt"))
+    B, rec2, obs2 = run_full(sc2, tmp, B=B, lib_cbs=obs1["lib_cbs"], trainer_kw=kw, tag="s2_")
+    if "error" in rec2:
+        rep.case(dict(case=case, stage=2), False)
+        rep.fail(f"fit 2 of a two-stage training ({st2['convert']}, same callback objects) raised {rec2['error']}", case)
+        return
+    conv = "solver.double" if st2["convert"] == "precision64" else st2["convert"]
+    judge_files(rep, sc2, B, rec2, obs2, tmp, [], [], conv=conv, full_case=case,
+                label=f"two-stage training, fit 2 after {st2['convert']} with the callback objects of fit 1: ",
+                min_rewritten=file_hash(os.path.join(tmp, "w_min_loss.pt")) != min_before)
+    # ---- every checkpoint written in fit 2 is resumed with freshly built, equally converted objects.
+    # Not under precision='64-true': there the default dtype is float64 inside the training step, so freshly built static /
+    # grid samplers cache float64 points where the objects that lived through fit 1 cached float32 ones — the two runs then
+    # differ by rounding of the user's residual arithmetic, which has nothing to do with the checkpoint.
+    if st2["convert"] == "precision64":
+        rep.count("two-stage:resume-not-compared(precision64)")
+        return
+    for (b, k) in obs2["written"]:
+        FB = convert(build(sc2), st2["convert"])
+        if not st2["reuse_solver"]:
+            pass                                            # build() already made a Solver with the stage-2 optimizer values
+        _, rec3 = run_resumed(sc2, os.path.join(tmp, f"state_s2_{k}.ckpt"), B=FB, trainer_kw=kw)
+        rep.case(dict(case=case, stage=2, k=k), k < st2["N"], kind="two-stage",
+                 sample=dict(case=c07.describe(case), stage2=st2, interrupt_at=k))
+        if "error" in rec3:
+            rep.fail(f"two-stage training, fit 2: resuming the step-{k} checkpoint raised {rec3['error']}", dict(case, interrupt_at=k))
+            continue
+        d = first_tensor_diff([rec2["tens_final"]], [rec3["tens_final"]])
+        if d is not None:
+            rep.fail(f"two-stage training, fit 2 ({st2['convert']}): checkpoint written after step {k}, resumed with freshly built objects and "
+                     f"trained on to step {st2['N']}: learnable tensor {d[1]}: uninterrupted {d[2]}, resumed {d[3]}", dict(case, interrupt_at=k))
 
 
 def resume_request(case, k):
@@ -162,6 +252,10 @@ def run(ctx, rep, cases=None):
     try:
         for ci, case in enumerate(cases):
             tmp = os.path.join(tmp_root, str(ci)); os.makedirs(tmp)
+            if "stage2" in case:
+                case["ck_weights_only"] = False
+                run_two_stage(rep, case, tmp)
+                continue
             B, rec, obs = run_full(case, tmp)
             N = case["N"]
             rep.count("channel:" + case["channel"]); rep.count("opt:" + case["opt"]["kind"])
@@ -189,6 +283,23 @@ def run(ctx, rep, cases=None):
                              opt=dict(kind="sgd", lr="1/512", momentum="0", dampening="0", wd="0", step_size=1, gamma="1/2", freq=1), default_args=True)
                 c07.run_impl(other)
                 rep.count("interleaved-fit")
+            if case.get("ck_weights_only"):
+                rep.count("ck:weights_only")
+                for (b, k) in obs["written"]:
+                    FB = build(case)
+                    ckpt = B.torch.load(os.path.join(tmp, f"state_{k}.ckpt"), weights_only=False)
+                    rep.case(dict(case=case, k=k, weights_only=True), True, kind="weights-only")
+                    try:
+                        FB.solver.load_state_dict(ckpt["state_dict"])
+                    except Exception as e:
+                        rep.fail(f"weights-only checkpoint of step {k} does not load into a freshly built Solver: {type(e).__name__}: {str(e)[:160]}", dict(case, interrupt_at=k))
+                        continue
+                    d = first_tensor_diff([rec["tens"][k]], [tensor_snapshot(FB)])
+                    if d is not None:
+                        rep.fail(f"weights-only checkpoint written after step {k} does not hold the learnable state of that step: {d[1]}: "
+                                 f"run {d[2]}, file {d[3]}", dict(case, interrupt_at=k))
+                judge_files(rep, case, B, rec, obs, tmp, lines, todo)
+                continue
             for (b, k) in obs["written"]:
                 B2, rec2 = run_resumed(case, os.path.join(tmp, f"state_{k}.ckpt"))
                 sub = dict(case, interrupt_at=k)
@@ -265,8 +376,11 @@ def run(ctx, rep, cases=None):
         shutil.rmtree(tmp_root, ignore_errors=True)
 
 
-def judge_files(rep, case, B, rec, obs, tmp, lines, todo):
+def judge_files(rep, case, B, rec, obs, tmp, lines, todo, conv=None, label="", min_rewritten=True, full_case=None):
+    """conv: conversion applied to the freshly built objects before loading (second stage of a two-stage case);
+    full_case: what is reported as failing input"""
     torch = B.torch
+    rcase = full_case or case
     N = case["N"]
     J = case["ws_interval"]
     paths = {k: os.path.join(tmp, f"w_{k}.pt") for k in ("init", "min_loss", "final")}
@@ -280,18 +394,28 @@ def judge_files(rep, case, B, rec, obs, tmp, lines, todo):
     for k, p in paths.items():
         if not present[k]:
             continue
-        fresh = ws_target(build(case), case)
+        if k == "min_loss" and not min_rewritten:
+            continue
+        FB = build(case)
+        if conv:
+            convert(FB, conv)
+        fresh = ws_target(FB, case)
         try:
-            fresh.load_state_dict(torch.load(p))
+            raw = torch.load(p)
+            fresh.load_state_dict(raw)
         except Exception as e:
-            rep.fail(f"the {k} weight file does not load into a freshly built identical model: {type(e).__name__}: {str(e)[:200]}", case)
+            rep.fail(f"{label}the {k} weight file does not load into a freshly built identical model: {type(e).__name__}: {str(e)[:200]}", rcase)
             continue
         loaded[k] = state_clone(fresh.state_dict())
+        want = obs["end"] if k != "init" else obs["start"]
+        bad = [kk for kk in raw if kk in want and raw[kk].dtype != want[kk].dtype]
+        if bad:
+            rep.fail(f"{label}the {k} weight file stores {bad[0]} as {raw[bad[0]].dtype}, the model it was written from holds {want[bad[0]].dtype}", rcase)
     if "init" in loaded and not same_state(loaded["init"], obs["start"]):
-        rep.fail("the initial weight file does not reproduce the model before training", case,
+        rep.fail(label + "the initial weight file does not reproduce the model before training", rcase,
                  detail=dict(file={k: v.tolist() for k, v in loaded["init"].items()}, before={k: v.tolist() for k, v in obs["start"].items()}))
     if "final" in loaded and not same_state(loaded["final"], obs["end"]):
-        rep.fail("the final weight file does not reproduce the model after training", case,
+        rep.fail(label + "the final weight file does not reproduce the model after training", rcase,
                  detail=dict(file={k: v.tolist() for k, v in loaded["final"].items()}, after={k: v.tolist() for k, v in obs["end"].items()}))
     checked = [b for b in range(1, N) if J > 0 and (b - 1) % J == 0]
     held = None
@@ -299,12 +423,12 @@ def judge_files(rep, case, B, rec, obs, tmp, lines, todo):
         states = dict(obs["states"]); states[len(rec["tens"]) - 1] = obs["end"]
         held = [b for b in sorted(states) if same_state(loaded["min_loss"], states[b])]
         if not held:
-            rep.fail("the minimal-loss weight file holds the weights of none of the steps of the run "
-                     f"(checked batches: {checked})", case,
+            rep.fail(label + "the minimal-loss weight file holds the weights of none of the steps of the run "
+                     f"(checked batches: {checked})", rcase,
                      detail=dict(file={k: v.tolist() for k, v in loaded["min_loss"].items()}))
         elif not [b for b in held if b in checked]:
             rep.disagree("minimal-loss file: model checks batches with (b-1) % interval == 0", case, held, checked)
-    if case["channel"] == "rat":
+    if case["channel"] == "rat" and not conv and not label:
         lines.append(files_request(case)); todo.append(("files", case, rec, present, held, checked))
 
 
